@@ -36,11 +36,65 @@ def converter_params(fn: FunctionInfo) -> list[str]:
     return out
 
 
+def _closure_inputs(cx: Cx, fn: FunctionInfo, ps: list[str]) -> list[str]:
+    """Converter parameters of a local (nested, undecorated) function that can receive one of the enclosing
+    function's inputs.  A local helper is reachable only through its enclosing function: a parameter that is
+    only ever handed a converter the enclosing function constructed itself (``reduce(_add, records, rv)``
+    with ``rv = Converter(...)``) is an accumulator, not an input.  Any use that is not understood keeps the
+    parameter."""
+    parent = fn.parent
+    if parent is None or fn.decorators or not ps:
+        return ps
+    names = [p.name for p in fn.params]
+    got: dict[str, list] = {n: [] for n in names}  # parameter -> argument ASTs ('elem' marks an element of an iterable)
+    understood = set()
+    for n in ast.walk(parent.node):
+        if not isinstance(n, ast.Call):
+            continue
+        f = n.func
+        fname = f.id if isinstance(f, ast.Name) else f.attr if isinstance(f, ast.Attribute) else None
+        if isinstance(f, ast.Name) and f.id == fn.name and not n.keywords and not any(isinstance(a, ast.Starred) for a in n.args) and len(n.args) <= len(names):
+            understood.add(id(f))
+            for pn, a in zip(names, n.args):
+                got[pn].append(a)
+        elif fname == "reduce" and n.args and isinstance(n.args[0], ast.Name) and n.args[0].id == fn.name and len(names) == 2 and not n.keywords:
+            understood.add(id(n.args[0]))
+            if len(n.args) == 3:
+                got[names[0]].append(n.args[2])
+            elif len(n.args) == 2:
+                got[names[0]].append("elem")
+            got[names[1]].append("elem")
+        elif fname in ("map", "filter") and n.args and isinstance(n.args[0], ast.Name) and n.args[0].id == fn.name and not n.keywords:
+            understood.add(id(n.args[0]))
+            for pn in names:
+                got[pn].append("elem")
+    for n in ast.walk(parent.node):
+        if isinstance(n, ast.Name) and n.id == fn.name and isinstance(n.ctx, ast.Load) and id(n) not in understood:
+            return ps  # the helper escapes in a way that is not modelled
+    pps = converter_params(parent)
+    own = Own(cx, parent, pps + ([parent.self_name] if parent.self_name else []))
+    out = []
+    for pn in ps:
+        exposed = False
+        for a in got.get(pn, []):
+            if isinstance(a, ast.Name) and a.id not in {p.name for p in parent.params}:
+                vals = [ev.b for ev, _ in own.s.walk() if ev.kind == "bind" and ev.a == a.id and isinstance(ev.b, tuple)]
+                tags = [own.tag(v) for v in vals]
+                if vals and all(tg is not None and tg[0] == "CF" for tg in tags):
+                    continue  # constructed by the enclosing function
+            exposed = True
+        if exposed or not got.get(pn):
+            out.append(pn)
+    return out
+
+
 def in_scope(cx: Cx) -> list[tuple[FunctionInfo, list[str]]]:
     """Functions taking a converter (non-self) and Converter methods returning a Converter."""
     out = []
     for fn in cx.model.functions.values():
         ps = converter_params(fn)
+        if fn.parent is not None:
+            ps = _closure_inputs(cx, fn, ps)
         if fn.cls is not None and fn.cls.name == "Converter" and fn.self_name and not fn.is_classmethod:
             r = fn.node.returns
             if r is not None and "Converter" in ast.unparse(r):
